@@ -616,6 +616,10 @@ def work(item, res):
         if len(users) >= 2:
             res.nontrivial.add(core.digest([conf, lock_name, ch.choices]))
         v = judge(conf, out)
+        refused = sum(x == ["refused"] for r in obs["results"]
+                      if r[0] == "ok" for x in r[1])
+        if refused:
+            res.count("inprocess_refused_exchanges", refused)
         if outside_precondition(obs):
             res.count("outside_precondition")
         elif obs.get("cancelled"):
